@@ -214,13 +214,25 @@ fn check_bare_and_types(q: &Quantity) -> Vec<(String, String)> {
                 o => bad.push(("bare-number".into(), format!("{} <{which}>: bare `{lit}` = {:?}, expected {:e} (base unit)", q.name, o, val * q.bare.0 + q.bare.1))),
             }
         }
-        for t in [Token::CharacterProgramData(b"V"), Token::StringProgramData(b"1V"), Token::NonDecimalNumericProgramData(1), Token::ArbitraryBlockData(b"1"), Token::ExpressionProgramData(b"1")] {
+        for t in non_numeric_tokens() {
             if conv(t).is_ok() {
                 bad.push(("non-numeric-accepted".into(), format!("{} <{which}> accepts non-numeric element {:?}", q.name, t)));
             }
         }
     }
     bad
+}
+
+/// Elements that are not decimal numerics: no quantity may accept any of them (this includes the
+/// special-value mnemonics a bare float accepts).
+pub fn non_numeric_tokens() -> Vec<Token<'static>> {
+    let mut v = vec![Token::StringProgramData(b"1V"), Token::StringProgramData(b"1"), Token::NonDecimalNumericProgramData(1), Token::ArbitraryBlockData(b"1"), Token::ExpressionProgramData(b"1")];
+    for c in [
+        &b"V"[..], b"MAX", b"MIN", b"MAXimum", b"MINimum", b"maximum", b"min", b"INF", b"NINF", b"INFinity", b"NINFinity", b"inf", b"NAN", b"nan", b"DEF", b"DEFault", b"UP", b"DOWN", b"ON", b"OFF", b"E1", b"X",
+    ] {
+        v.push(Token::CharacterProgramData(c));
+    }
+    v
 }
 
 // ---- amplitude and decibel classification
@@ -256,6 +268,11 @@ fn amplitude_checks() -> Vec<(String, String)> {
     for s in ["PK", "VPKK", "XPK", "VRMSS", "RMS", "APP"] {
         if A::try_from(Token::DecimalNumericSuffixProgramData(b"1", s.as_bytes())).is_ok() {
             bad.push(("amplitude-unknown-accepted".into(), format!("`1 {s}` is accepted as Amplitude<ElectricPotential>")));
+        }
+    }
+    for t in non_numeric_tokens() {
+        if A::try_from(t).is_ok() {
+            bad.push(("non-numeric-accepted".into(), format!("Amplitude<ElectricPotential> accepts non-numeric element {:?}", t)));
         }
     }
     if !matches!(A::try_from(Token::DecimalNumericProgramData(b"2.5")), Ok(Amplitude::None(x)) if x.value == 2.5) {
@@ -296,6 +313,11 @@ fn db_checks() -> Vec<(String, String)> {
             }
             if D::try_from(Token::CharacterProgramData(b"DBV")).is_ok() {
                 bad.push(("non-numeric-accepted".into(), format!("character data accepted as Db<f32,{}>", $name)));
+            }
+            for t in non_numeric_tokens() {
+                if D::try_from(t).is_ok() {
+                    bad.push(("non-numeric-accepted".into(), format!("Db<f32,{}> accepts non-numeric element {:?}", $name, t)));
+                }
             }
         }};
     }
